@@ -221,11 +221,26 @@ def _rows(impl_out):
 def oracle_lines(lines, impl_outs):
     res = []
     for l, o in zip(lines, impl_outs):
-        tag = l.split(" ", 1)[0]
+        t = l.split(" ")
+        tag = t[0]
         if tag in ("qr", "qrc") and o and o.startswith("OK "):
             res.append("qrdec " + _rows(o))
         elif tag == "qrrender" and o and "/" in o:
             res.append("qrdec " + o)
+        elif tag == "qrfmt" and o and "/" in o:
+            res.append("qrfmtdec " + o)
+        elif tag == "qrfun" and o and "/" in o:
+            res.append("qrfundec %s %s" % (t[1], o))
+        elif tag == "qrorder" and o:
+            res.append("qrorderspec " + t[1])
+        elif tag == "qrmask" and o and 0 <= int(t[1]) < 8:
+            res.append("qrmaskspec %s %s" % (t[1], t[2]))
+        elif tag == "qralign" and o:
+            res.append("qralignspec " + t[1])
+        elif tag == "qrccb" and o and t[2] in ("1", "2", "4"):
+            res.append("qrccbspec %s %s" % (t[1], t[2]))
+        elif tag == "qrtdb" and o:
+            res.append("qrtdbspec %s %s" % (t[1], t[2]))
         else:
             res.append(None)
     return res
@@ -237,8 +252,24 @@ LEVELS = "LMQH"
 def oracle_verdict(line, impl_out, oracle_out):
     t = line.split(" ")
     if t[0] == "qrrender":
-        # random codewords: readable format/version/RS structure is all that can be asked
+        # random codewords: the symbol must be readable up to the block level or not at all;
+        # what is asked is format/version/pattern structure, checked through qrfmt/qrfun
         return None
+    if t[0] == "qrfmt":
+        want = "OK %s %s" % (LEVELS[int(t[2])], t[3])
+        return None if oracle_out == want else "format information reads %s, drawn for %s" % (oracle_out, want)
+    if t[0] == "qrfun":
+        return None if oracle_out == "OK" else "function modules: " + oracle_out
+    if t[0] == "qrorder":
+        return None if oracle_out == impl_out else "placement order differs from the ISO column-pair order"
+    if t[0] == "qrmask":
+        return None if oracle_out == impl_out else "mask predicate differs from ISO Table 10"
+    if t[0] == "qralign":
+        return None if oracle_out == impl_out else "alignment positions differ from ISO Annex E " + oracle_out
+    if t[0] == "qrccb":
+        return None if oracle_out == impl_out else "character count width differs from ISO Table 3 (%s)" % oracle_out
+    if t[0] == "qrtdb":
+        return None if oracle_out == impl_out else "data codewords differ from ISO Table 9 (%s)" % oracle_out
     if t[0] == "qrc":
         t = t[:1] + t[2:]
     level, content = int(t[1]), t[3]
@@ -295,3 +326,85 @@ RULE = ("hooks, exhaustive on finite sub-domains: function-module matrix and pla
         "seeded subset in quick; explicit mode and Auto), beyond-capacity, random lengths, unknown level/mode constants, 6 colour "
         "schemes. Each render is compared with the model's 8 mask candidates (any valid mask accepted) and read back by the "
         "extracted reference reader; non-trivial = an encode that returned OK or ERR; distinct = distinct case line")
+
+
+# ---------------------------------------------------------------------------
+# kernel-side sample: the model evaluated by vm_compute inside Coq on the very cases
+# the implementation ran (ties the extracted OCaml to the kernel's reading of the model)
+KERNEL_HEADER = """From Verif Require Import Prelude Barcode BitListM TabQr QRMBits QRMBlocks QRMRender QRM.
+Inductive kcase :=
+| KCcb (v m e : Z)
+| KTdb (v l e : Z)
+| KAlign (v : Z) (e : list Z)
+| KBits (content : list Z) (level mode : Z) (e : option (Z * Z * list bool))
+| KQr (content : list Z) (level mode mask : Z) (e : option (list (list bool)))
+| KSkip.
+Fixpoint zs_eqb (a b : list Z) : bool :=
+  match a, b with [], [] => true | x :: a', y :: b' => (x =? y) && zs_eqb a' b' | _, _ => false end.
+Fixpoint bs_eqb (a b : list bool) : bool :=
+  match a, b with [], [] => true | x :: a', y :: b' => Bool.eqb x y && bs_eqb a' b' | _, _ => false end.
+Fixpoint rows_eqb (a b : list (list bool)) : bool :=
+  match a, b with [], [] => true | x :: a', y :: b' => bs_eqb x y && rows_eqb a' b' | _, _ => false end.
+Definition case_ok (c : kcase) : bool :=
+  match c with
+  | KCcb v m e => char_count_bits v m =? e
+  | KTdb v l e =>
+    match find (fun vi => (vi_version vi =? v) && (vi_level vi =? l)) version_infos with
+    | Some vi => total_data_bytes vi =? e
+    | None => e =? -1
+    end
+  | KAlign v e => match alignment_placements v with Ok l => zs_eqb l e | _ => false end
+  | KBits c l m e =>
+    match encode_bits c l m, e with
+    | Ok (bits, vi), Some (v, lv, eb) => (vi_version vi =? v) && (vi_level vi =? lv) && bs_eqb bits eb
+    | Err, None => true
+    | _, _ => false
+    end
+  | KQr c l m k e =>
+    match qr_encode c l m k, e with
+    | Ok bc, Some rows => rows_eqb (bc_rows bc) rows && zs_eqb (bc_content bc) c
+    | Err, None => true
+    | _, _ => false
+    end
+  | KSkip => true
+  end.
+"""
+
+
+def _zs(hexs):
+    if hexs == "-":
+        return "[]"
+    return "[" + "; ".join(str(int(hexs[i:i + 2], 16)) for i in range(0, len(hexs), 2)) + "]"
+
+
+def _bs(s):
+    return "[" + "; ".join("true" if c == "1" else "false" for c in s) + "]"
+
+
+def coq_case(line, impl_out):
+    t = line.split(" ")
+    try:
+        if t[0] == "qrccb":
+            return "KCcb %s %s %s" % (t[1], t[2], impl_out)
+        if t[0] == "qrtdb":
+            return "KTdb %s %s (%s)" % (t[1], t[2], impl_out)
+        if t[0] == "qralign":
+            body = impl_out.strip("[]")
+            return "KAlign %s [%s]" % (t[1], "; ".join(body.split(",")) if body else "")
+        if t[0] == "qrbits" and int(t[2]) in (0, 1, 2, 3) and len(t[3]) < 200:
+            if impl_out == "ERR":
+                return "KBits %s %s %s None" % (_zs(t[3]), t[1], t[2])
+            o = impl_out.split(" ")
+            if o[0] == "OK" and len(o[3]) < 1200:
+                return "KBits %s %s %s (Some (%s, %s, %s))" % (_zs(t[3]), t[1], t[2], o[1], o[2], _bs(o[3]))
+        if t[0] == "qr" and int(t[2]) in (0, 1, 2, 3) and len(t[3]) < 120:
+            if impl_out == "ERR":
+                return "KQr %s %s %s 0 None" % (_zs(t[3]), t[1], t[2])
+            if impl_out.startswith("OK "):
+                rows = _rows(impl_out)
+                if len(rows) < 1400:
+                    return "KQr %s %s %s %d (Some [%s])" % (_zs(t[3]), t[1], t[2], _mask_of(rows),
+                                                          "; ".join(_bs(r) for r in rows.split("/")))
+    except (ValueError, IndexError):
+        pass
+    return "KSkip"
